@@ -1074,15 +1074,23 @@ func getActiveBaseDirVTable(virtualTableName string) string {
 }
 
 func DeleteVirtualTableSegStore(virtualTableName string) {
+	deletedSegKeys := make([]string, 0)
 	allSegStoresLock.Lock()
 	for streamid, segstore := range allSegStores {
 		if segstore.VirtualTableName == virtualTableName {
+			deletedSegKeys = append(deletedSegKeys, segstore.SegmentKey)
 			delete(allSegStores, streamid)
 		}
 	}
 	activedir := getActiveBaseDirVTable(virtualTableName)
 	os.RemoveAll(activedir)
 	allSegStoresLock.Unlock()
+
+	// the unrotated segments of the table are gone; queries and the column listing
+	// must not be offered their in-memory metadata any more
+	for _, segkey := range deletedSegKeys {
+		removeSegKeyFromUnrotatedInfo(segkey)
+	}
 }
 
 func DeleteSegmentsForIndex(indexName string) {
